@@ -709,6 +709,10 @@ func (e *Engine) designatorLocs(env *SpecEnv, d SExpr) []heapLoc {
 				}
 				hn, hs := e.sliceHeapName(sl.Elem())
 				return []heapLoc{{hn, hs, "(s_ref " + s.T + ")"}}
+			case "scanState":
+				// the position and error state of a bufio.Scanner
+				sc := e.trSpec(env, x.Args[0])
+				return []heapLoc{{"HF_bufio.Scanner_$pos", "(Array Int Int)", sc.T}, {"HF_bufio.Scanner_$err", "(Array Int Int)", sc.T}}
 			case "mapOf":
 				m := e.trSpec(env, x.Args[0])
 				mt, ok := m.GoT.Underlying().(*types.Map)
